@@ -466,10 +466,10 @@ func (p *Path) rInterface(r *rval) value {
 	return iface{t: r.t, v: v}
 }
 
-func newRmapIter(r *rval) *rmapIter {
+func newRmapIter(r *rval, rev bool) *rmapIter {
 	mt := r.t.Underlying().(*types.Map)
 	m, _ := r.get().(*Map)
-	return &rmapIter{m: m, kt: mt.Key(), et: mt.Elem(), it: m.iter(), ro: r.ro}
+	return &rmapIter{m: m, kt: mt.Key(), et: mt.Elem(), it: m.iterOrd(rev), ro: r.ro}
 }
 
 func rv(args []value, i int) *rval {
@@ -811,7 +811,7 @@ func addReflect(e *Engine, m map[string]intrinsic) {
 		mt := r.t.Underlying().(*types.Map)
 		mp, _ := r.get().(*Map)
 		out := []value{}
-		it := mp.iter()
+		it := mp.iterOrd(p.revMaps)
 		for {
 			tup := it.next(p)
 			if tup[0].(*Term).c == 0 {
@@ -862,7 +862,7 @@ func addReflect(e *Engine, m map[string]intrinsic) {
 	})
 	V("MapRange", func(p *Path, fr *frame, r *rval, a []value) value {
 		r.mustBe("MapRange", kMap)
-		cell := value(newRmapIter(r))
+		cell := value(newRmapIter(r, p.revMaps))
 		return &cell
 	})
 	iterOf := func(v value) *rmapIter {
